@@ -92,7 +92,7 @@ def body(case, rec):
     t_rsmi, _, style = cg.corpus()[ti]
     s_rsmi = cg.corpus()[si][0]
     if rx.slow_known(t_rsmi, kind, invert):
-        rec.label("excluded:known-h2-full-its-backward")
+        rec.label("excluded:slow-h2-full-its-backward")
         return
     facts = rx.reaction_facts(t_rsmi)
     r, p = s_rsmi.split(">>")
